@@ -326,22 +326,45 @@ theorem q2_initial_state_inv (cap : Nat) (etag : Bytes) (a b c d e : Nat) (x y :
   ⟨by simp [WfFrom], by simp, by intro k hk; simp [Covers] at hk⟩
 
 /-- In every state with the invariant — so after ANY arrival sequence — a recovery request names only blocks whose offset
-lies inside the body (`total_len`), never a block at or beyond its end; and only 20-bit numbers as long as the body has at most
-2^20 blocks (`total_len` comes from the peer's Size2: a peer announcing more than 2^20 blocks is the only way to a 21-bit
-number, and only behind 2^20 received blocks). -/
+lies inside the body (`total_len`), never a block at or beyond its end, and only 20-bit numbers — for EVERY `total_len`
+(whatever Size2 the peer announced: `coap_request_missing_q_block2` limits the length it works with to the 2^20 blocks a
+Q-Block2 option can address, fix 856b47c; before it `total_len ≤ 2^20 blocks` was a hypothesis of the second claim). -/
 theorem q2_recovery_inside_body (cap mp : Nat) (hmp : 0 < mp) (useM : Bool) (st : Q2State) (h : Q2Inv cap st) :
     ∀ q, q ∈ (reqMissingQ2 mp useM st.rs st.szx st.totalLen).1 →
-      q.1 * 2 ^ (st.szx + 4) < st.totalLen ∧ (st.totalLen ≤ 2 ^ 20 * 2 ^ (st.szx + 4) → q.1 < 2 ^ 20) := by
+      q.1 * 2 ^ (st.szx + 4) < st.totalLen ∧ q.1 < 2 ^ 20 := by
   intro q hq
-  have hin : q.1 * 2 ^ (st.szx + 4) < st.totalLen := by
-    rcases ((reqMissingQ2_spec mp hmp useM st.rs st.szx st.totalLen).2.2.1 q hq).1 with ⟨r, hr, hlt⟩ | hlt
-    · have hc := (h.2.2 r.1 (wf_begin_covered st.rs 0 r h.1 hr)).2
-      have : q.1 * 2 ^ (st.szx + 4) ≤ r.1 * 2 ^ (st.szx + 4) := Nat.mul_le_mul_right _ (Nat.le_of_lt hlt)
-      omega
-    · exact hlt
-  refine ⟨hin, fun hle => ?_⟩
-  have hlt : q.1 * 2 ^ (st.szx + 4) < 2 ^ 20 * 2 ^ (st.szx + 4) := by omega
-  exact Nat.lt_of_mul_lt_mul_right hlt
+  refine ⟨?_, inv_req_20bit cap mp hmp useM st h q hq⟩
+  rcases ((reqMissingQ2_spec mp hmp useM st.rs st.szx st.totalLen).2.2.1 q hq).1 with ⟨r, hr, hlt⟩ | hlt
+  · have hc := (h.2.2 r.1 (wf_begin_covered st.rs 0 r h.1 hr)).2
+    have : q.1 * 2 ^ (st.szx + 4) ≤ r.1 * 2 ^ (st.szx + 4) := Nat.mul_le_mul_right _ (Nat.le_of_lt hlt)
+    omega
+  · exact hlt
+
+/-- `coap_request_missing_q_block2` for EVERY `rec_blocks` (no invariant, no well-formedness), block size, `total_len`,
+MAX_PAYLOADS ≥ 1, with and without the M variant: if the begins of the recorded ranges are 20-bit numbers (they are block
+numbers `coap_get_block_b` delivered), every number the request names is a 20-bit number: the option always encodes. -/
+theorem q2_recovery_numbers_20bit (mp : Nat) (hmp : 0 < mp) (useM : Bool) (rs : Ranges) (szx totalLen : Nat)
+    (hr : ∀ r, r ∈ rs → r.1 < 2 ^ 20) :
+    ∀ q, q ∈ (reqMissingQ2 mp useM rs szx totalLen).1 → q.1 < 2 ^ 20 := by
+  intro q hq
+  rcases reqMissingQ2_20bit mp hmp useM rs szx totalLen q hq with ⟨r, hr', hlt⟩ | hl
+  · exact Nat.lt_trans hlt (hr r hr')
+  · exact hl
+
+/-- EVERY request the Q-Block2 path of `coap_handle_response_get_block` sends — the recovery requests in front of
+`update_received_blocks` and behind a complete payload set, and the `continue` request for the next payload set (NUM =
+range[0].end + 1) — names only 20-bit block numbers, for every response (any NUM < 2^20, M, SZX, payload length, Size2, ETag,
+Content-Format) in every state with the invariant, hence along ANY arrival sequence from the state after
+`coap_block_new_lg_crcv` (`q2_initial_state_inv`, `q2_bookkeeping_invariant`).  Closes finding c02-qblock2-num-2e20. -/
+theorem q2_requests_20bit (cap mp : Nat) (hmp : 0 < mp) (useM isNon : Bool) : ∀ (is : List Q2In) (st0 : Q2State),
+    Q2Inv cap st0 → (∀ i, i ∈ is → i.num < 2 ^ 20) →
+    ∀ (pre : List Q2In) (i : Q2In) (post : List Q2In), is = pre ++ i :: post →
+      ∀ rq, rq ∈ (q2Step cap mp useM isNon (pre.foldl (fun st j => (q2Step cap mp useM isNon st j).1) st0) i).2.1 →
+        ∀ q, q ∈ rq → q.1 < 2 ^ 20 := by
+  intro is st0 h0 hn pre i post e
+  subst e
+  have hpre := q2_bookkeeping_invariant cap mp useM isNon pre st0 h0 (fun j hj => hn j (by simp [hj]))
+  exact q2Step_req cap mp hmp useM isNon _ i (hn i (by simp)) hpre
 
 /-- `coap_send_q_blocks` (NON, datagram transport), for EVERY body length, block size, MAX_PAYLOADS ≥ 1, starting block and M:
 the blocks that follow the caller's block are consecutive later numbers of ONE payload set (that of `num + 1`) — at most
@@ -383,8 +406,15 @@ example : Q2Inv 16 ⟨false, false, [], 100, 0, 0, [(0, 1), (4, 4)], 0, 0⟩ :=
     refine ⟨by omega, ?_⟩
     show k * 2 ^ (0 + 4) < 100
     omega⟩
-/-- open finding c02-qblock2-num-2e20: with `total_len` > 2^20 blocks the M variant asks for block 2^20 (a 21-bit number) -/
-example : reqMissingQ2 2 true [(1048575, 1048575)] 0 16777217 = ([(1048576, 1)], some 524288) := by decide
+/-- finding c02-qblock2-num-2e20 (fixed, 856b47c): with `total_len` > 2^20 blocks the M variant asked for block 2^20 (a 21-bit
+number: `reqMissingQ2At` is the function without the clamp); now the length is limited and the gap in front is asked for -/
+example : reqMissingQ2At 2 true [(1048575, 1048575)] 0 16777217 = ([(1048576, 1)], some 524288) := by decide
+example : reqMissingQ2 2 true [(1048575, 1048575)] 0 16777217 = ([(0, 0), (1, 0)], some 0) := by decide
+example : q2ClampLen 0 16777217 = 16777216 ∧ q2ClampLen 6 4294967295 = 1073741824 ∧ q2ClampLen 2 1000 = 1000 := by decide
+/-- the same finding in the `continue` request: block 0xFFFFF (M=0) first, then 0xFFFFE (M=1): the payload set counts as complete,
+NUM = range[0].end + 1 = 2^20 was asked for; now nothing is sent (the recovery request for blocks 0, 1, 2 in front stays) -/
+example : (q2Step 16 3 false true (q2Step 16 3 false true ⟨true, false, [], 0, 0, 0, [], 0, 0⟩ ⟨1048575, 0, 0, 16, none, none, 0⟩).1
+      ⟨1048574, 1, 0, 16, some 16777216, none, 0⟩).2 = ([[(0, 0), (1, 0), (2, 0)]], .skip) := by decide
 /-- the one request that is NOT a recovery request — the `continue` for the next payload set, NUM = range[0].end + 1 — can name
 a block BEYOND the body when a hostile server sends the last block first (documented behaviour, design/C02.md): body of 97
 bytes = blocks 0..6; block 6 (M=0, 1 byte), then block 5 (M=1) → a recovery request for blocks 0, 1, 2 and a `continue` for block 7. -/
